@@ -185,3 +185,17 @@ func init() {
 		}
 	}
 }
+
+func init() {
+	// utils.go: zero-copy string -> []byte through reflect headers; modelled as a fresh copy (a
+	// write through the alias would be missed; the result is documented read-only).
+	externals["github.com/yuin/gopher-lua.unsafeFastStringToReadOnlyBytes"] = func(fr *frame, args []value) value {
+		return []value(append(symstr{}, toSymstr(args[0])...))
+	}
+	// alloc.go newAllocator builds its float page through reflect.SliceHeader; the allocator is
+	// replaced by plain boxing (LNumber2I above), so construction is a no-op object.
+	externals["github.com/yuin/gopher-lua.newAllocator"] = func(fr *frame, args []value) value {
+		cell := zero(mustDeref(fr.fn.Signature.Results().At(0).Type()))
+		return &cell
+	}
+}
